@@ -306,3 +306,4 @@ MANIFEST = dict(
                "(exercised by the correspondence). The model, not the Python, is what the theorems are about.",
     technique="Lean 4 proof (invariant by induction over operation histories) + model/implementation correspondence",
 )
+READY = True
